@@ -69,6 +69,7 @@ type rDec struct {
 	undef  bool // some SID used by the stream is not defined by the table in force
 	unsure bool // construct whose meaning the specification leaves open (listed where set)
 	nbvm   int
+	importErr bool // an import lacks a usable max_id and has no exact catalog match: the stream is in error
 }
 
 var rSystemSymbols = []string{"$ion", "$ion_1_0", "$ion_symbol_table", "name", "version", "imports", "symbols", "max_id", "$ion_shared_symbol_table"}
@@ -621,7 +622,7 @@ func (d *rDec) importSlots(j int) []rSlot {
 	if use == nil {
 		use = best
 		if !haveMax {
-			d.unsure = true // error per specification; callers treat as not comparable
+			d.importErr = true // error per specification
 			return nil
 		}
 	}
